@@ -476,6 +476,24 @@ impl<T> Block for NoCopyFileSink<T>""")]),
 """, "")]),
     dict(name="c18-mmap-elsewhere", prop="C18", expect="C18.R1:circular_buffer::Circ::new",
          edits=[E("src/circular_buffer.rs", "        // Shrink file.\n", "        // SAFETY: mutant\n        let _extra = unsafe { libc::mmap(std::ptr::null_mut(), size, PROT_READ, MAP_SHARED, f.as_raw_fd(), 0) };\n        // Shrink file.\n")]),
+    # ---------------- round-2 seeds as mutants
+    dict(name="c02-tag-key-no-modulo", prop="C02", expect="C02.R5:circular_buffer::Buffer::produce:entry:key",
+         edits=[E("src/circular_buffer.rs", "            let pos = (tag.pos() + s.wpos) % s.capacity();", "            let pos = tag.pos() + s.wpos;")]),
+    dict(name="c09-rtlsdr-need-1", prop="C09", expect="C09.R4:<rtlsdr_decode::RtlSdrDecode as block::Block>::work:need(src)",
+         edits=[E("src/rtlsdr_decode.rs", "            return Ok(BlockRet::WaitForStream(&self.src, 2));", "            return Ok(BlockRet::WaitForStream(&self.src, 1));")]),
+    dict(name="c09-macro-min-then-first-input", prop="C09", expect="C09.R3:<add::Add as block::Block>::work:wait(a)",
+         edits=[E("rustradio_macros/src/lib.rs", """                    #(let #in_names = #in_names.0;
+                      if #in_names.len() == 0 {
+                          return Ok(#path::block::BlockRet::WaitForStream(&self.#in_names, 1));
+                      })*
+""", """                    #(let #in_names = #in_names.0;)*
+"""), E("rustradio_macros/src/lib.rs", """                    assert_ne!(n, 0, "Input stream len 0, but we already checked that.");
+""", """                    if n == 0 {
+                        return Ok(#path::block::BlockRet::WaitForStream(&self.#first, 1));
+                    }
+""")]),
+    dict(name="c04-mt-closed-shortcut", prop="C04", expect="C04.R5:<mtgraph::MTGraph as graph::GraphRunner>::run::{closure#0}",
+         edits=[E("src/mtgraph.rs", "let eof = stream.wait(need);", "let eof = stream.closed() || stream.wait(need);")]),
 ]
 
 ALL_BUILT = ["C03", "C08", "C12", "C13", "C14", "C15", "C19", "C01", "C02", "C04", "C05", "C06", "C07", "C09", "C16", "C17", "C18"]
